@@ -1,10 +1,10 @@
 SPECIFICATION Spec
 CONSTANTS
-  CapFactor = 4
+  CapFactor = 2
   TokMin = 65536
   TokMax = 16777216
   ErrCap = 100
-  MaxToks = 11
+  MaxToks = 12
   MaxAborts = 1
   MaxBad = 1
   Densities = {3}
@@ -14,7 +14,7 @@ CONSTANTS
   UnaryAlts = {"neg", "sizeof", "lenof"}
   TypeAlts = {"kw", "named", "ptr", "arr"}
   ExprAlts = {"add", "bit", "shift", "mul", "cast", "as"}
-  ExpectationTextComplete = TRUE
+  ExpectationTextComplete = FALSE
 INVARIANTS SetLenArg CursorOK OutcomeOK Verdict ResourceLimit EmitCase
 
 CHECK_DEADLOCK FALSE
